@@ -424,19 +424,48 @@ def check(run, replay=None):
                 run.violation("backtrack_without_crossing", "TankLevelCondition left backtrack %d although the threshold was not just crossed" % e["backtrack"],
                               input={"spec": spec, "evaluation": e})
         # (3) thresholds are met by a partial step ---------------------------------------------------------------------------------------
-        if spec["options"]["report_timestep"] == "ALL":
+        crossings = []
+
+        def partial_steps(Hd_, Pm_, Dm_, St_, times_, what, paused_at=None):
+            def rep_(c, t):
+                return float(Hd_.loc[t, c["node"]]) if (c["node"] in tanks and c["nattr"] == "head") else float(Pm_.loc[t, c["node"]])
             for k, c in enumerate(spec["cond"]):
                 if c["node"] not in tanks or c["attr"] != "status":
                     continue
                 tk = tanks[c["node"]]
-                for t1, t2 in zip(times, times[1:]):
-                    a, b = truth(c["op"], reported(c, t1), c["thr"], True), truth(c["op"], reported(c, t2), c["thr"], True)
-                    if a is False and b is True and int(St.loc[t1, c["link"]]) != LS[c["value"]] and int(St.loc[t2, c["link"]]) == LS[c["value"]]:
-                        q = float(Dm.loc[t1, c["node"]])
-                        over = abs(reported(c, t2) - c["thr"])
+                for t1, t2 in zip(times_, times_[1:]):
+                    a, b = truth(c["op"], rep_(c, t1), c["thr"], True), truth(c["op"], rep_(c, t2), c["thr"], True)
+                    if a is False and b is True and int(St_.loc[t1, c["link"]]) != LS[c["value"]] and int(St_.loc[t2, c["link"]]) == LS[c["value"]]:
+                        q = float(Dm_.loc[t1, c["node"]])
+                        over = abs(rep_(c, t2) - c["thr"])
+                        crossings.append((t1, t2))
                         add("(%s <= 2 * %s / (PI * %s ^ 2 / 4) + 1 / 1000000)%%R" % (R(over), R(abs(q)), R(tk["diameter"])),
-                            {"check": "threshold met by a partial step", "spec": spec, "control": c, "t1": t1, "t2": t2, "overshoot": over, "tank_flow": q,
+                            {"check": what, "spec": spec, "control": c, "t1": t1, "t2": t2, "overshoot": over, "tank_flow": q, "paused_at": paused_at,
                              "full_step_change": abs(q) * (t2 - t1) / (3.141592653589793 * tk["diameter"] ** 2 / 4)}, True)
+        if spec["options"]["report_timestep"] == "ALL":
+            partial_steps(Hd, Pm, Dm, St, times, "threshold met by a partial step")
+            # ... also in a run that is paused just before a crossing and continued by a new simulator object
+            hs_ = spec["options"]["hydraulic_timestep"]
+            cand = sorted({(t2 // hs_) * hs_ if t2 % hs_ else t2 - hs_ for (t1, t2) in crossings})
+            cand = [T1 for T1 in cand if 0 < T1 < spec["options"]["duration"]]
+            if cand:
+                import pandas as _pd
+                T1 = rng.choice(cand)
+                try:
+                    wnp = build(spec, wntr)
+                    wnp.options.time.duration = T1
+                    ra, ea, wa, _ = simrun.run(wntr, wnp)
+                    wnp.options.time.duration = spec["options"]["duration"]
+                    rb, eb, wb, _ = simrun.run(wntr, wnp)
+                except Exception:
+                    ra = rb = None
+                if ra is not None and rb is not None and simrun.converged(ra, ea, wa) and simrun.converged(rb, eb, wb):
+                    cat = lambda f: _pd.concat([f(ra), f(rb)])
+                    Hp, Pp, Dp, Sp = cat(lambda r: r.node["head"]), cat(lambda r: r.node["pressure"]), cat(lambda r: r.node["demand"]), cat(lambda r: r.link["status"])
+                    tp = [int(t) for t in Hp.index]
+                    if len(set(tp)) == len(tp):
+                        run.count("paused before a threshold crossing")
+                        partial_steps(Hp, Pp, Dp, Sp, tp, "threshold met by a partial step (run paused and continued)", paused_at=T1)
     res_, errors = common.run_prop_cases("C05", HEADER, TACTIC, cases, shard=120, case_timeout=30)
     for e in errors:
         run.tie_broken("correspondence case file failed to compile", e)
